@@ -150,7 +150,11 @@ func shortTarget(t string) string {
 }
 
 func (w *c18World) delete(signer chain.Account, from string, ts int64) {
-	res := w.f.Exec(&notiftypes.MsgDeleteNotification{Creator: signer.Bech, From: from, Time: ts})
+	spelled := signer.Bech
+	if ts%2 == 1 { // odd time stamps: the recipient spells its own address in upper case (same account)
+		spelled = strings.ToUpper(signer.Bech)
+	}
+	res := w.f.Exec(&notiftypes.MsgDeleteNotification{Creator: spelled, From: from, Time: ts})
 	w.logf("delete by %s from=%q time=%d -> %s", short(signer.Bech), shortTarget(from), ts, res)
 	if res.OK() {
 		delete(w.inbox, fmt.Sprintf("%s|%s|%d", signer.Bech, from, ts))
@@ -158,7 +162,11 @@ func (w *c18World) delete(signer chain.Account, from string, ts int64) {
 }
 
 func (w *c18World) block(owner chain.Account, targets []string) {
-	res := w.f.Exec(&notiftypes.MsgBlockSenders{Creator: owner.Bech, ToBlock: targets})
+	w.blockAs(owner, owner.Bech, targets)
+}
+
+func (w *c18World) blockAs(owner chain.Account, spelled string, targets []string) {
+	res := w.f.Exec(&notiftypes.MsgBlockSenders{Creator: spelled, ToBlock: targets})
 	var ts []string
 	for _, t := range targets {
 		ts = append(ts, shortTarget(t))
@@ -201,6 +209,15 @@ func TestC18(t *testing.T) {
 		w.block(w.accs[0], []string{w.accs[1].Bech})
 		sig, msg := w.invariant()
 		rec.Regress("C18/phantom-entry/block-entry-listed-as-notification", sig != "", msg+" | "+strings.Join(w.trace, " ; "))
+	}
+	{ // plain regression replay: the recipient spells its own address in upper case when blocking / deleting
+		w := newC18World(c)
+		w.blockAs(w.accs[0], strings.ToUpper(w.accs[0].Bech), []string{w.accs[1].Bech})
+		sig, msg := w.create(w.accs[1], w.accs[0].Bech, "{}", nil)
+		if sig == "" {
+			sig, msg = w.invariant()
+		}
+		rec.Regress("C18/blocked-sender-delivered/recipient-upper-case-spelling", sig != "", msg+" | "+strings.Join(w.trace, " ; "))
 	}
 	{ // plain regression replay: a blocked sender spells its address in upper case
 		w := newC18World(c)
@@ -279,7 +296,12 @@ func TestC18(t *testing.T) {
 				for i := 0; i < n; i++ {
 					ts = append(ts, drawTarget(rt))
 				}
-				w.block(drawAcc(rt, "owner"), ts)
+				o := drawAcc(rt, "owner")
+				if rapid.IntRange(0, 5).Draw(rt, "upperCaseCreator") == 0 {
+					w.blockAs(o, strings.ToUpper(o.Bech), ts) // the recipient spells its own address in upper case
+				} else {
+					w.block(o, ts)
+				}
 			},
 			"rns": func(rt *rapid.T) {
 				nm := names[rapid.IntRange(0, 1).Draw(rt, "name")]
